@@ -581,7 +581,22 @@ func ruleQU3() Rule {
 				// the recursive expansions in Quote mode
 				ast.Inspect(cc, func(x ast.Node) bool {
 					call, ok := x.(*ast.CallExpr)
-					if !ok || !strings.HasSuffix(calleeName(info, call), "(*ExecEnv).expand") || len(call.Args) != 2 {
+					if !ok {
+						return true
+					}
+					direct := strings.HasSuffix(calleeName(info, call), "(*ExecEnv).expand") && len(call.Args) == 2
+					// or through a helper of the package that expands the word it is handed
+					viaHelper := false
+					if fo := core.StaticCallee(info, call); fo != nil && !direct {
+						if h := c.P.FuncOf(fo); h != nil && h != f && h.Pkg == f.Pkg && h.Decl != nil && h.Body != nil && len(h.Body.List) <= 6 && len(c.callsTo(h, f)) > 0 {
+							for _, a := range call.Args {
+								if tv, has := info.Types[a]; has && tv.Type != nil && namedTypeName(tv.Type) == "ast.Word" {
+									viaHelper = true
+								}
+							}
+						}
+					}
+					if !direct && !viaHelper {
 						return true
 					}
 					n++
@@ -976,35 +991,68 @@ func ruleQU3b() Rule {
 			if ep == nil || get == nil {
 				return
 			}
-			info := ep.Info()
-			var setObj types.Object
-			ep.OwnNodes(func(n ast.Node) bool {
-				as, ok := n.(*ast.AssignStmt)
-				if !ok || len(as.Lhs) != 2 || len(as.Rhs) != 1 {
-					return true
-				}
-				call, ok := ast.Unparen(as.Rhs[0]).(*ast.CallExpr)
-				if !ok {
-					return true
-				}
-				if fo := core.StaticCallee(info, call); fo != nil && c.P.FuncOf(fo) == get {
-					if id, ok := as.Lhs[1].(*ast.Ident); ok {
-						setObj = info.Uses[id]
-						if setObj == nil {
-							setObj = info.Defs[id]
-						}
+			// the look-up may live in expandParam or in a helper it calls (two levels): the function
+			// that receives Get's second result is the one whose `@` and `*` clauses are examined
+			cellOf := func(info *types.Info, e ast.Expr) types.Object {
+				switch x := ast.Unparen(e).(type) {
+				case *ast.Ident:
+					if o := info.Uses[x]; o != nil {
+						return o
+					}
+					return info.Defs[x]
+				case *ast.SelectorExpr:
+					if v := core.FieldOf(info, x); v != nil {
+						return v
 					}
 				}
-				return true
-			})
+				return nil
+			}
+			var setObj types.Object
+			var lookup *core.Func
+			var search func(g *core.Func, depth int)
+			search = func(g *core.Func, depth int) {
+				if g == nil || g.Body == nil || depth > 2 || setObj != nil {
+					return
+				}
+				gi := g.Info()
+				g.OwnNodes(func(n ast.Node) bool {
+					as, ok := n.(*ast.AssignStmt)
+					if !ok || len(as.Lhs) != 2 || len(as.Rhs) != 1 {
+						return true
+					}
+					call, ok := ast.Unparen(as.Rhs[0]).(*ast.CallExpr)
+					if !ok {
+						return true
+					}
+					if fo := core.StaticCallee(gi, call); fo != nil && c.P.FuncOf(fo) == get && setObj == nil {
+						setObj, lookup = cellOf(gi, as.Lhs[1]), g
+					}
+					return true
+				})
+				if setObj != nil {
+					return
+				}
+				g.OwnNodes(func(n ast.Node) bool {
+					if call, ok := n.(*ast.CallExpr); ok {
+						if fo := core.StaticCallee(gi, call); fo != nil {
+							if h := c.P.FuncOf(fo); h != nil && h != g && h != get && h.Pkg == g.Pkg && h.Decl != nil && h.Short != "(*ExecEnv).expand" {
+								search(h, depth+1)
+							}
+						}
+					}
+					return true
+				})
+			}
+			search(ep, 0)
 			if setObj == nil {
 				rr.Unk(ep, ep.Name+"|set flag", ep.Pos(), "the flag that receives Get's second result was not found")
 				return
 			}
+			info := lookup.Info()
 			for _, name := range []string{"@", "*"} {
 				key := fmt.Sprintf("%s|$%s is always set", ep.Name, name)
 				var clause *swClause
-				for _, sw := range switches(c.P, ep) {
+				for _, sw := range switches(c.P, lookup) {
 					for _, cl := range sw.clauses {
 						if cl.strs[name] && len(cl.strs) == 1 {
 							clause = cl
@@ -1012,21 +1060,21 @@ func ruleQU3b() Rule {
 					}
 				}
 				if clause == nil {
-					rr.Bad(ep, key, ep.Pos(), fmt.Sprintf("expandParam has no clause of its own for $%s: it is handled like a named variable, whose `set` comes from Get - for a special parameter Get derives it from the value being non-empty, so an empty $%s counts as unset", name, name))
+					rr.Bad(lookup, key, lookup.Pos(), fmt.Sprintf("expandParam has no clause of its own for $%s: it is handled like a named variable, whose `set` comes from Get - for a special parameter Get derives it from the value being non-empty, so an empty $%s counts as unset", name, name))
 					continue
 				}
 				ok := false
 				for _, st := range clause.cc.Body {
 					if as, isAs := st.(*ast.AssignStmt); isAs && len(as.Lhs) == 1 && len(as.Rhs) == 1 {
-						if id, isID := as.Lhs[0].(*ast.Ident); isID && info.Uses[id] == setObj && exprStr(as.Rhs[0]) == "true" {
+						if cellOf(info, as.Lhs[0]) == setObj && exprStr(as.Rhs[0]) == "true" {
 							ok = true
 						}
 					}
 				}
 				if ok {
-					rr.OK(ep, key, clause.cc.Pos(), "set-true", "the clause sets the flag unconditionally")
+					rr.OK(lookup, key, clause.cc.Pos(), "set-true", "the clause sets the flag unconditionally")
 				} else {
-					rr.Bad(ep, key, clause.cc.Pos(), fmt.Sprintf("the clause for $%s does not set the `set` flag to true unconditionally", name))
+					rr.Bad(lookup, key, clause.cc.Pos(), fmt.Sprintf("the clause for $%s does not set the `set` flag to true unconditionally", name))
 				}
 			}
 		}}
